@@ -60,7 +60,7 @@ def run(tier, seed):
                 f(s, rng)
                 pd, reg = regsim.build(s)
                 B.run_case(regrun.policy_of(pd), reg, "dict", "reject", f"{name}/{fmt}/inter={s.n_inter}", scn=s)
-                if fmt in PASSTHROUGH and name != "impostor-root-same-name":
+                if fmt in PASSTHROUGH and name not in regcat.NO_PASSTHROUGH_VARIANT:
                     s2 = regsim.RScn(fmt, "ES256-P256")
                     s2.n_inter = ni
                     f(s2, rng)
